@@ -225,8 +225,8 @@ Section Facts.
     assert (Wh2 : whandles D w2 = [id]) by (rewrite W2, W1, W0; reflexivity).
     assert (Rm : remove_nat id [id] = []) by (unfold remove_nat; simpl; rewrite Nat.eqb_refl; reflexivity).
     destruct (sort_entries K D lt pick_min (wstash (ws_register K D s id))) as [l |] eqn:Esrt.
-    2: { destruct (w_close_w D id w2) as [rc w3] eqn:E3. apply close_w_spec in E3. destruct E3 as (I3 & F3 & R3 & W3).
-         inversion H; subst. repeat split; try congruence. right. exists id. repeat split; simpl; congruence. }
+    2: { destruct (w_close_w D id w2) as [[u3 | x3] w3] eqn:E3; apply close_w_spec in E3; destruct E3 as (I3 & F3 & R3 & W3);
+         inversion H; subst; (split; [congruence |]; split; [rewrite W3, Wh2; exact Rm |]; right; exists id; repeat split; simpl; congruence). }
     destruct (write_all D id (map snd l) w2) as [[x |] w3] eqn:E3; apply write_all_spec in E3; destruct E3 as ((I3 & F3 & W3) & R3).
     - destruct (w_close_w D id w3) as [[u4 | x4] w4] eqn:E4; apply close_w_spec in E4; destruct E4 as (I4 & F4 & R4 & W4);
         inversion H; subst; (split; [congruence |]; split; [rewrite W4, W3, Wh2; exact Rm |]; right; exists id; repeat split; simpl; congruence).
